@@ -15,7 +15,7 @@ def canon(t):
 
 PRIM = {"unit": "()"}
 LIBS = {
-    "ArcStr": "std::sync::Arc<str>", "PathBuf": "std::path::PathBuf", "IpAddr": "std::net::IpAddr",
+    "ArcStr": "std::sync::Arc<str>", "ArrayString": "arrayvec::ArrayString<32>", "PathBuf": "std::path::PathBuf", "IpAddr": "std::net::IpAddr",
     "SocketAddr": "std::net::SocketAddr", "Duration": "std::time::Duration", "SystemTime": "std::time::SystemTime",
     "IoError": "std::io::Error", "Canary1": "savefile::Canary1", "DateTimeUtc": "chrono::DateTime<chrono::Utc>",
     "BitVec": "bit_vec::BitVec", "BitSet": "bit_set::BitSet", "BitVec08": "bit_vec08::BitVec", "BitSet08": "bit_set08::BitSet",
@@ -69,6 +69,8 @@ class Gen:
             if t["s"] == "Cow" and inner["k"] == "str":
                 return "std::borrow::Cow<'static, str>"
             return BOX[t["s"]].format(self.ty(inner))
+        if k == "tup" and t["s"] == "Range":
+            return "std::ops::Range<{}>".format(self.ty(t["ts"][0]))
         if k == "tup":
             return "(" + "".join(self.ty(x) + "," for x in t["ts"]) + ")"
         if k == "map":
@@ -239,7 +241,7 @@ class Gen:
                 fsizes.append("std::mem::size_of::<{}>()".format(self.field_rust(t, i)))
         elif t["k"] == "tup":
             for i, ft in enumerate(t["ts"]):
-                offs.append("std::mem::offset_of!({}, {})".format(rust, i))
+                offs.append("std::mem::offset_of!({}, {})".format(rust, ("start", "end")[i] if t["s"] == "Range" else i))
                 fsizes.append("std::mem::size_of::<{}>()".format(self.ty(ft)))
         self.entries[key] = (rust, offs, fsizes)
         # composite children are registered too, so that layout trees can be resolved recursively
